@@ -144,6 +144,11 @@ class ParseFlags:
 
 # ---------------------------------------------------------------- fill_in_map: the statement-level emitters
 @spec
+def wf_mapfiller(v) -> bool:
+    return type_is(v, MapFiller) and isinstance(v.hidden_names, tuple)
+
+
+@spec
 def wf_map_arg(a) -> bool:
     """arguments fill_in_map meets once lets and macros are gone: numbers, whole registers, well-formed qubit references"""
     return (is_int(a) or is_float(a) or type_is(a, Register) or type_is(a, Constant) or type_is(a, Parameter)
@@ -169,7 +174,7 @@ class MapGate:
     reference root[phys] of the C06 specification, every other argument is passed through unchanged"""
 
     def requires(self, gate):
-        return (type_is(self, MapFiller) and type_is(gate, GateStatement) and isinstance(gate._parameters, dict) and isinstance(gate._gate_def, AbstractGate)
+        return (wf_mapfiller(self) and type_is(gate, GateStatement) and isinstance(gate._parameters, dict) and isinstance(gate._gate_def, AbstractGate)
                 and forall_range(dict_len(gate._parameters), lambda j: wf_map_arg(dict_val_at(gate._parameters, j))))
 
     def ensures_shape(self, gate, result):
@@ -190,7 +195,7 @@ class MapGate:
 @contract("core.algorithm.fill_in_map:MapFiller.visit_default", props=["C10", "C11"])
 class MapDefault:
     def requires(self, obj):
-        return type_is(self, MapFiller)
+        return wf_mapfiller(self)
 
     def ensures(self, obj, result):
         return same(result, obj)
@@ -204,7 +209,7 @@ class MapRegister:
     JaqalError - nothing else escapes"""
 
     def requires(self, reg):
-        return type_is(self, MapFiller) and type_is(reg, Register)
+        return wf_mapfiller(self) and type_is(reg, Register)
 
     def ensures(self, reg, result):
         return same(result, reg) and reg._alias_from is None
@@ -221,7 +226,7 @@ class MapBlock:
     entry per child statement"""
 
     def requires(self, block):
-        return type_is(self, MapFiller) and type_is(block, BlockStatement) and wf_mbody(block)
+        return wf_mapfiller(self) and type_is(block, BlockStatement) and wf_mbody(block)
 
     def ensures_subcircuit(self, block, result):
         return implies(block._subcircuit, isinstance(result, list) and len(result) == len(block._statements) + 2
@@ -243,7 +248,7 @@ class MapLoop:
     """emits ["loop", <the same count>, <block>]"""
 
     def requires(self, loop):
-        return type_is(self, MapFiller) and type_is(loop, LoopStatement) and wf_mbody(loop)
+        return wf_mapfiller(self) and type_is(loop, LoopStatement) and wf_mbody(loop)
 
     def ensures(self, loop, result):
         return isinstance(result, list) and len(result) == 3 and result[0] == "loop" and same(result[1], loop._iterations)
